@@ -246,6 +246,12 @@ int main(int argc, char **argv) {
       "proc main() is var x; 0(x)",
       "proc f(val n) is var t; { if n = 0 then 0(t) else f(n - 1) } proc main() is f(5)"};
     for (auto src : unwritten) { auto cr = ad::xcompile(src, ad::X_BINARY, ctx.scratch + "/t.bin"); if (cr.status == 0) progs.push_back({"unwritten", slurp(ctx.scratch + "/t.bin"), ""}); else rep.st.add("unwritten_program_not_compiled"); }
+    // debug tables with long symbol names (the loader reads them into host memory before the run)
+    for (int L : {31, 63, 64, 65, 100, 255, 256, 300, 1000}) {
+      std::string nm(L, 'n'); nm[0] = 'p'; for (int i = 1; i < L; i++) nm[i] = (char)('a' + i % 26);
+      auto cr = ad::xcompile("var g;\nproc " + nm + "(val v) is g := g + v\nfunc f" + nm + "(val v) is return v + 1\nproc main() is { g := 0; " + nm + "(2); " + nm + "(f" + nm + "(3)); 0(g) }\n", ad::X_BINARY, ctx.scratch + "/t.bin");
+      if (cr.status == 0) progs.push_back({"long-name:" + std::to_string(L), slurp(ctx.scratch + "/t.bin"), ""}); else rep.st.add("long_name_program_not_compiled");
+    }
     // large images (the program is short, the image is not): data words above the code that the program reads back from the far end
     for (int words : {49990, 50000, 50001, 120000, 199000}) {
       std::string src = "BR start\nDATA 199990\nstart\nLDAC " + std::to_string(words) + "\nLDAI 10\nLDBM 1\nSTAI 2\nLDAC 0\nOPR SVC\n"; for (int i = 0; i < words + 8; i++) src += "DATA " + std::to_string((i * 7 + 3) & 0xFF) + "\n";
@@ -264,9 +270,11 @@ int main(int argc, char **argv) {
         while (!env.exited && steps < 30000000) { if (ref.classify(false) != refisa::DEFINED) { ok = false; break; } ref.step(env); steps++; }
         if (!ok || !env.exited) { st.add("shipped_skipped_not_defined_or_long"); st.add("shipped_skipped:" + p.name); continue; }
         spit(dir + "/p.bin", p.file);
+        std::string symBase;
         for (int fill : FILLS) for (int tr = 0; tr < 2; tr++) {
           if (tr && steps > 300000) continue;
-          simh::Sim s; s.create(fill, 0); ad::sim_load(s.v, (dir + "/p.bin").c_str()); s.setInput(p.input);
+          simh::Sim s; s.create(fill, 0); scribbleStack((unsigned char)fill); ad::sim_load(s.v, (dir + "/p.bin").c_str()); s.setInput(p.input);
+          { auto sy = ad::sim_symbols(s.v); std::string names; for (auto &q : sy) names += q.first + "@" + std::to_string(q.second) + " "; if (fill == FILLS[0] && tr == 0) symBase = names; else if (names != symBase) { st.violation("shipped:symbols-depend-on-host-memory", i, Obj().kv("family", "shipped").kv("program", p.name).kv("fill", fill).kv("what", "the symbol table as loaded differs between host-memory fills").str()); } }
           if (tr) ad::sim_set_tracing(s.v, true);
           int kind; std::string err; int rv = ad::sim_run(s.v, &kind, &err);
           st.add("runs"); st.add("shipped_runs");
@@ -293,7 +301,7 @@ int main(int argc, char **argv) {
       phase(ctx, "process level");
       std::vector<int> perturb = ctx.thorough() ? std::vector<int>{0, 1, 85, 170, 255, 7, 128} : std::vector<int>{0, 85, 170, 255};
       std::vector<size_t> pad = {0, 4096, 65536};
-      std::vector<P> pp; for (auto &p : progs) if (p.name == "unwritten" || (p.name == "fib.x" && p.input == "\x05") || (p.name == "hello_putval.x" && p.input.empty())) pp.push_back(p);
+      std::vector<P> pp; for (auto &p : progs) if (p.name == "unwritten" || p.name.rfind("long-name:", 0) == 0 || (p.name == "fib.x" && p.input == "\x05") || (p.name == "hello_putval.x" && p.input.empty())) pp.push_back(p);
       // plus limited runs
       Stats st;
       spit(ctx.scratch + "/empty.in", "");
